@@ -1055,29 +1055,33 @@ func structFields(f *ast.File, typeName string) []string {
 // literals are functions of their own: they run later, possibly on another goroutine), whether it writes, whether it
 // goes through sync/atomic, and the mutexes of the loop held at that point.  C17's theorem `race_free` is decided
 // over this table.
-func sharedAccess() string {
-	f := mustFile("eventloop/eventloop.go")
-	fields := map[string]bool{}
+type accRow struct {
+	fn, field     string
+	write, atomic bool
+	locks         []string
+}
+
+// accessTable: every expression of eventloop.go that `match` recognises as a shared field, with function, write,
+// atomic and the loop mutexes held (see sharedAccess)
+func accessTable(f *ast.File, match func(x ast.Expr) (string, bool)) []accRow {
+	loopFields := map[string]bool{}
 	for _, n := range structFields(f, "EventLoop") {
-		fields[n] = true
+		loopFields[n] = true
 	}
-	type acc struct {
-		fn, field     string
-		write, atomic bool
-		locks         []string
-	}
-	var accs []acc
-	isLoopField := func(x ast.Expr) (string, bool) {
+	isLoopMutex := func(x ast.Expr) (string, bool) {
 		se, ok := x.(*ast.SelectorExpr)
 		if !ok {
 			return "", false
 		}
 		id, ok := se.X.(*ast.Ident)
-		if !ok || id.Name != "loop" || !fields[se.Sel.Name] {
+		if !ok || id.Name != "loop" || !loopFields[se.Sel.Name] {
 			return "", false
 		}
 		return se.Sel.Name, true
 	}
+	type acc = accRow
+	var accs []acc
+	isLoopField := match
 	var walkFunc func(name string, body *ast.BlockStmt)
 	walkFunc = func(name string, body *ast.BlockStmt) {
 		nlit := 0
@@ -1100,7 +1104,7 @@ func sharedAccess() string {
 				case *ast.CallExpr:
 					if se, ok := v.Fun.(*ast.SelectorExpr); ok {
 						// loop.<mutex|cond>.<Method>() is a synchronisation action, not a data access
-						if _, ok := isLoopField(se.X); ok {
+						if fld, ok := isLoopMutex(se.X); ok && (fld == "auxJobsLock" || fld == "stopLock" || fld == "stopCond") {
 							skip[se.X] = true
 						}
 						if pk, ok := se.X.(*ast.Ident); ok && pk.Name == "atomic" && len(v.Args) > 0 {
@@ -1157,7 +1161,7 @@ func sharedAccess() string {
 			if !ok || (se.Sel.Name != "Lock" && se.Sel.Name != "Unlock") {
 				return "", ""
 			}
-			if fld, ok := isLoopField(se.X); ok {
+			if fld, ok := isLoopMutex(se.X); ok {
 				return fld, se.Sel.Name
 			}
 			return "", ""
@@ -1247,15 +1251,17 @@ func sharedAccess() string {
 		}
 		walkFunc(name, fd.Body)
 	}
-	// merge duplicates
+	return accs
+}
+
+func renderAccesses(name string, accs []accRow) string {
 	type key struct {
 		fn, field, locks string
 		write, atomic    bool
 	}
 	seen := map[key]bool{}
 	var sb strings.Builder
-	sb.WriteString("structure Access where\n  fn : String\n  field : String\n  write : Bool\n  atomic : Bool\n  locks : List String\n  deriving Repr, DecidableEq\n\n")
-	sb.WriteString("def elAccesses : List Access := [\n")
+	sb.WriteString("def " + name + " : List Access := [\n")
 	var lines []string
 	for _, a := range accs {
 		sort.Strings(a.locks)
@@ -1269,6 +1275,51 @@ func sharedAccess() string {
 	sort.Strings(lines)
 	sb.WriteString(strings.Join(lines, ",\n"))
 	sb.WriteString("\n]\n\n")
+	return sb.String()
+}
+
+// sharedAccess: every access to a field of the EventLoop struct in eventloop.go, with the function (function
+// literals are functions of their own: they run later, possibly on another goroutine), whether it writes, whether it
+// goes through sync/atomic, and the mutexes of the loop held at that point; and the same for the fields of the job
+// objects (Timer, Interval, Immediate).  C17's theorem `race_free` is decided over these tables.
+func sharedAccess() string {
+	f := mustFile("eventloop/eventloop.go")
+	fields := map[string]bool{}
+	for _, n := range structFields(f, "EventLoop") {
+		fields[n] = true
+	}
+	loopAccs := accessTable(f, func(x ast.Expr) (string, bool) {
+		se, ok := x.(*ast.SelectorExpr)
+		if !ok {
+			return "", false
+		}
+		id, ok := se.X.(*ast.Ident)
+		if !ok || id.Name != "loop" || !fields[se.Sel.Name] {
+			return "", false
+		}
+		return se.Sel.Name, true
+	})
+	jobFields := map[string]bool{}
+	for _, t := range []string{"job", "Timer", "Interval", "Immediate"} {
+		for _, n := range structFields(f, t) {
+			jobFields[n] = true
+		}
+	}
+	delete(jobFields, "job") // the embedded struct itself: &t.job is an address, not an access
+	jobAccs := accessTable(f, func(x ast.Expr) (string, bool) {
+		se, ok := x.(*ast.SelectorExpr)
+		if !ok || !jobFields[se.Sel.Name] {
+			return "", false
+		}
+		if id, ok := se.X.(*ast.Ident); ok && id.Name != "loop" {
+			return se.Sel.Name, true
+		}
+		return "", false
+	})
+	var sb strings.Builder
+	sb.WriteString("structure Access where\n  fn : String\n  field : String\n  write : Bool\n  atomic : Bool\n  locks : List String\n  deriving Repr, DecidableEq\n\n")
+	sb.WriteString(renderAccesses("elAccesses", loopAccs))
+	sb.WriteString(renderAccesses("jobAccesses", jobAccs))
 	var fl []string
 	for _, n := range structFields(f, "EventLoop") {
 		fl = append(fl, n)
